@@ -191,6 +191,7 @@ def main(cid, tier, seed, replay=None, as_json=False, nproc=None, max_confirm=4)
     known_seen = []
     known_hits = {}
     harness_errors = []
+    transient = []
     confirmed = 0
     for key, (case, f, count) in by_key.items():
         if key.startswith("harness-"):
@@ -218,6 +219,11 @@ def main(cid, tier, seed, replay=None, as_json=False, nproc=None, max_confirm=4)
             ok, seen = confirm_in_fresh_process(cid, rp, key)
             confirmed += 1
             if not ok:
+                if key == "crash" and all(len(x) == 0 for x in seen):
+                    # the pool lost a worker while it ran this case (memory pressure, signal), and the case then ran to
+                    # completion TWICE in fresh processes without any failure: the case is decided by those runs
+                    transient.append(label(case))
+                    continue
                 harness_errors.append("failure %s not reproducible in a fresh process (saw %s)" % (key, seen))
                 continue
         n_viol += 1
@@ -260,6 +266,7 @@ def main(cid, tier, seed, replay=None, as_json=False, nproc=None, max_confirm=4)
         "caps_hit": caps,
         "undecided_smoothness": n_undecided,
         "known_findings_seen": known_seen,
+        "cases_rerun_after_worker_loss": transient,
         "transitions_note": "edge relations evaluated between neighbouring states; when a check attaches no edge relation, the enumeration-order successor count is reported",
     }
     cov.update(extra.get("coverage", {}))
